@@ -372,6 +372,34 @@ func digitSweepCase(t *mon.T, d int64) {
 	t.Nontrivial(fmt.Sprintf("ds|%d|%v", d, x.Neg))
 }
 
+// coincidenceGapCase: operands whose exponents differ by a k at which 10^k is
+// within 5e-4 of a power of two (gen.CoincidenceExps), with coefficients just
+// below powers of two and ten: the places where a comparison that is decided
+// from bit lengths or digit-count estimates goes wrong first.
+func coincidenceGapCase(t *mon.T, k int64) {
+	r := t.Rng
+	cs := []*big.Int{big.NewInt(1), big.NewInt(7), big.NewInt(9), big.NewInt(99), big.NewInt(1<<32 - 1), big.NewInt(1<<63 - 1),
+		new(big.Int).SetUint64(1<<64 - 1), new(big.Int).Sub(new(big.Int).Lsh(bOne, 128), bOne), big.NewInt(r.Range(1, 1<<40))}
+	c := cs[r.Intn(len(cs))]
+	neg := r.Bool()
+	y := dec.D{Form: dec.Finite, Neg: neg, C: c, E: k}
+	scaled := new(big.Int).Mul(c, dec.Pow10(k))
+	ay := br.ToApd(y)
+	for _, delta := range []int64{0, -1, 1} {
+		x := dec.D{Form: dec.Finite, Neg: neg, C: new(big.Int).Add(scaled, big.NewInt(delta)), E: 0}
+		ax := br.ToApd(x)
+		want, wantT := dec.Cmp(x, y), refCmpTotal(x, y)
+		got, rev, ct := ax.Cmp(ay), ay.Cmp(ax), ax.CmpTotal(ay)
+		t.EvalN(3)
+		if got != want || rev != -want || ct != wantT {
+			t.Fail("cmp-wrong", map[string]interface{}{"kind": "coincidence-gap", "gap": k, "y": y.String(), "x_is_y_scaled_plus": delta, "cmp": got, "reverse": rev, "cmptotal": ct, "want": want, "want_total": wantT})
+			return
+		}
+	}
+	t.Count("pair/coincidence-gap")
+	t.Nontrivial(fmt.Sprintf("cg|%d|%s|%v", k, c, neg))
+}
+
 func runC15(r *mon.Run) {
 	r.Rule = "pairs engineered for each path of Cmp: equal exponents; different adjusted magnitudes; equal digit-count+exponent sums with equal or " +
 		"one-unit-different aligned coefficients; cohorts (equal value, different exponent); zeros of either sign and any exponent; " +
@@ -379,7 +407,7 @@ func runC15(r *mon.Run) {
 		"the exact comparison on big integers, CmpTotal with the documented ranking; antisymmetry, reflexivity, zero-iff-identical, and " +
 		"transitivity on pools of 7 values (sorted-chain consistency plus explicit triples); a digit-count sweep compares, for every " +
 		"coefficient length d up to 3000 (quick; 160 sampled lengths up to 120000) / every d up to 120000 (thorough), a nines-leading d-digit " +
-		"coefficient with its cohort twin and three neighbours. distinct_nontrivial = distinct pairs that " +
+		"coefficient with its cohort twin and three neighbours; exponent gaps and digit counts at every k up to 200200 where 10^k lies within 5e-4 of a power of two, with coefficients next to powers of two. distinct_nontrivial = distinct pairs that " +
 		"reach the rescaled comparison or are cohort pairs, and distinct pools."
 	r.Assumptions = []string{"math/big is correct", "NaN payload ordering is held only to the order axioms"}
 	r.Parallel("pairs", r.N(400000, 40000000), cmpCase)
@@ -390,6 +418,15 @@ func runC15(r *mon.Run) {
 	if r.Quick() {
 		r.Parallel("digit-sweep-sampled", 160, func(t *mon.T) { digitSweepCase(t, t.Rng.Range(3001, 120000)) })
 	}
+	coin := gen.CoincidenceExps(129, 200200, 5e-4)
+	r.Parallel("coincidence-gaps", int64(len(coin))*r.N(2, 8), func(t *mon.T) { coincidenceGapCase(t, coin[t.Index%int64(len(coin))]) })
+	r.Parallel("coincidence-digit-counts", int64(len(coin))*5, func(t *mon.T) {
+		k := coin[t.Index/5]
+		if k <= 120000 {
+			digitSweepCase(t, k+[]int64{0, 1, 2, 20, 21}[t.Index%5])
+		}
+	})
+	r.Extra("coincidence_exponents", len(coin))
 	r.Extra("digit_sweep_every_digit_count_up_to", sweepTo)
 	for _, k := range []string{"pair/equal-exponent", "pair/aligned-compare", "pair/cohort", "pair/zeros", "pair/infinities", "pair/large-gap", "pair/specials", "triples"} {
 		r.Require(k, 1000)
